@@ -51,6 +51,14 @@ ns = dict(vars(mod))
 rng = random.Random(12345)
 
 
+def sortable(items):
+    try:
+        sorted(items)
+        return True
+    except Exception:  # pylint: disable=broad-except
+        return False
+
+
 def violate(name, kwargs):
     del PARTS[:]
     del mod.LOGREPR.log[:]
@@ -92,8 +100,16 @@ for call in calls:
                 if part.startswith(prefix):
                     n_cmp += 1
                     want = REFERENCE.repr(value)
-                    if part[len(prefix):] != want:
-                        mismatches.append([key, part[len(prefix):], want])
+                    shown = part[len(prefix):]
+                    if shown != want and isinstance(value, (set, frozenset)) and not sortable(value):
+                        # reprlib defines no order for items which can not be compared (it shows them in hash order): the limits
+                        # are pinned modulo the order of the items
+                        same = (len(shown) == len(want) and shown.split("{")[0] == want.split("{")[0]
+                                and all(REFERENCE.repr1(item, REFERENCE.maxlevel - 1) in shown for item in value))
+                        if same:
+                            continue
+                    if shown != want:
+                        mismatches.append([key, shown, want])
     report["cases"][name] = {"msgs": msgs, "parts": parts, "logged": logged, "default_limit_mismatches": mismatches,
                              "default_limit_comparisons": n_cmp}
 
